@@ -514,6 +514,21 @@ func (e *escaper) escapeList(c context, n *parse.ListNode) context {
 	return c
 }
 
+// sameNames reports whether a and b hold the same names, in any order.
+func sameNames(a, b []string) bool {
+	set := make(map[string]bool, len(a))
+	for _, n := range a {
+		set[n] = true
+	}
+	for _, n := range b {
+		if !set[n] {
+			return false
+		}
+		delete(set, n)
+	}
+	return len(set) == 0
+}
+
 // bareName returns the lower-case text of the list if it consists of a single text
 // node holding nothing but the characters of a name, and "" otherwise.
 func bareName(n *parse.ListNode) string {
@@ -834,6 +849,10 @@ func (e *escaper) computeOutCtx(c context, t *template.Template) context {
 			err:   errorf(ErrOutputContext, t.Tree.Root, 0, "cannot compute output context for template %s", t.Name()),
 		}
 	}
+	if ok && c1.state == stateAttr && e.called[t.Name()] {
+		// The template calls itself: see escapeTemplateBody.
+		c1.attr.ambiguousValue = true
+	}
 	if ok {
 		// Record the context the template really ends in. escapeTemplateBody stored the
 		// assumed one (the start context), which is wrong for a template that ends in
@@ -861,12 +880,18 @@ func (e *escaper) escapeTemplateBody(c, out context, t *template.Template) (cont
 		// c1 is accurate if it matches our assumed output context, also in what is
 		// known about names left open or split.
 		return out.eq(c1) && out.nameOpen == c1.nameOpen && out.tagNameOpen == c1.tagNameOpen &&
-			out.element.split == c1.element.split && out.element.attrSplit == c1.element.attrSplit && out.attr.split == c1.attr.split
+			out.element.split == c1.element.split && out.element.attrSplit == c1.element.attrSplit && out.attr.split == c1.attr.split &&
+			sameNames(out.element.names, c1.element.names) && sameNames(out.attr.names, c1.attr.names)
 	}
 	// We need to assume an output context so that recursive template calls
 	// take the fast path out of escapeTree instead of infinitely recursing.
 	// Naively assuming that the input context is the same as the output
 	// works >90% of the time.
+	if out.state == stateAttr {
+		// A recursive call may add static text to the attribute value any number of
+		// times: what follows such a call comes after a value that is not known.
+		out.attr.ambiguousValue = true
+	}
 	e.output[t.Name()] = out
 	return e.escapeListConditionally(c, t.Tree.Root, filter)
 }
